@@ -1,6 +1,7 @@
 // C04 — conversions preserve value or truncate toward zero at destination resolution
 #pragma once
 #include "../floatval.h"
+#include "../sweep.h"
 #include "../scaledval.h"
 
 namespace c04 {
